@@ -138,3 +138,17 @@ def doc_precedence_rows(F, R):
 def match_arms_table(m):
     """[(set of variant keys, arm)] of a match node"""
     return [(H.pat_variants(a["pat"]), a) for a in m["arms"]]
+
+
+def builtin_table(F, R):
+    """[(name, function path)] from the BUILTINFNS constant"""
+    c = F.consts.get("builtins::functions::BUILTINFNS")
+    if not R.anchor("const builtins::functions::BUILTINFNS", c is not None and "hir" in c):
+        return None
+    out = []
+    for x in H.walk(c["hir"]["body"]):
+        if x.get("k") == "call" and H.last(x.get("callee") or "") == "new" and "BuiltinFunction" in (x.get("callee") or ""):
+            nm = H.strip(x["args"][0])
+            fn = H.res_path(H.strip(x["args"][1]))
+            out.append((nm.get("v"), fn))
+    return out
